@@ -37,6 +37,9 @@ func c02Eval(c *Config, t TreeCase) string {
 		if !bytes.Equal(got, want) {
 			return fmt.Sprintf("wire image differs from the reference encoding at byte %d: library %x reference %x", firstDiff(got, want), got, want)
 		}
+		if wb, err := WireViaWriteTo(m); err != nil || !bytes.Equal(wb, want) {
+			return fmt.Sprintf("bytes written by WriteTo (after an unrelated write reused the serialisation buffer) differ from the reference encoding at byte %d (err %v)", firstDiff(wb, want), err)
+		}
 		// symmetric direction: typed values read from the reference encoding
 		m2, err := diam.ReadMessage(bytes.NewReader(want), c.A.D.P)
 		if err != nil {
